@@ -43,18 +43,19 @@ type DivFault struct {
 }
 
 type PrioScenario struct {
-	Ver      string       `json:"version"` // v2 | v1 | v2s | v1s
-	Divider  string       `json:"divider"`
-	DivSeed  uint64       `json:"divider_seed,omitempty"`
-	H        uint         `json:"handlers"`
-	Inputs   []PInputSpec `json:"inputs"`
-	OutCap   int          `json:"v1_output_capacity,omitempty"`
-	FbCap    int          `json:"v1_feedback_capacity,omitempty"`
-	Script   []POp        `json:"script"`
-	Saturate bool         `json:"saturate,omitempty"`
-	Starved  bool         `json:"v1_some_priority_without_share,omitempty"` // no progress is expected, only safety
-	Fault    *DivFault    `json:"fault,omitempty"`
-	Seed     uint64       `json:"seed"`
+	Ver            string       `json:"version"` // v2 | v1 | v2s | v1s
+	Divider        string       `json:"divider"`
+	DivSeed        uint64       `json:"divider_seed,omitempty"`
+	H              uint         `json:"handlers"`
+	Inputs         []PInputSpec `json:"inputs"`
+	OutCap         int          `json:"v1_output_capacity,omitempty"`
+	FbCap          int          `json:"v1_feedback_capacity,omitempty"`
+	Script         []POp        `json:"script"`
+	Saturate       bool         `json:"saturate,omitempty"`
+	Starved        bool         `json:"v1_some_priority_without_share,omitempty"`               // no progress is expected, only safety
+	StarveEndsAtRm *uint        `json:"without_share_until_this_priority_is_removed,omitempty"` // once RemoveInput of it has returned every remaining priority has a share
+	Fault          *DivFault    `json:"fault,omitempty"`
+	Seed           uint64       `json:"seed"`
 }
 
 func (sc PrioScenario) simple() bool { return sc.Ver == "v2s" || sc.Ver == "v1s" }
@@ -102,6 +103,8 @@ type prioResult struct {
 	PriosWith2      int
 	Log             []string
 	Aborted         string
+	Unstarved       bool
+	SatRemovals     int
 	ReAdds          int
 	Stalled         string // Starved scenarios: the liveness expectation at which the run was ended
 }
@@ -141,6 +144,8 @@ type prioExec struct {
 
 	outClosed           bool
 	errClosed           bool
+	unstarved           bool // a Starved scenario whose removal has returned: liveness oracles apply from here on
+	satPaused           bool // saturation: a removal has changed the shares, the per-receive bound is off until the next checkpoint
 	ignoreErr           bool // this client never reads Err(): for it the closure of Output() is the termination
 	termSeen            bool
 	stopIssued          bool
@@ -177,7 +182,7 @@ var livenessKeys = map[string]bool{
 
 func (x *prioExec) fail(prop, key, format string, a ...any) {
 	msg := fmt.Sprintf(format, a...)
-	if x.sc.Starved && livenessKeys[key] {
+	if x.sc.Starved && !x.unstarved && livenessKeys[key] {
 		x.logf("stalled (no share for some priority, nothing claimed): %s", msg)
 		x.res.Stalled = key
 		x.failed = true
@@ -287,7 +292,7 @@ func (x *prioExec) onRecv(d Dlv) {
 	if n > int(x.sc.H) && !(x.sc.simple() && x.stopIssued) {
 		x.fail("C01", "capacity", "%d items handed out and not released, HandlersQuantity is %d (per priority %v)", n, x.sc.H, x.heldBy)
 	}
-	if x.sc.Saturate && x.armed() {
+	if x.sc.Saturate && !x.satPaused && x.armed() {
 		if uint(x.heldBy[d.Tag]) > x.shares[d.Tag] {
 			x.fail("C05", "share-exceeded", "under saturation priority %d holds %d items, its share of %d handlers is %d (all shares %v, held %v)", d.Tag, x.heldBy[d.Tag], x.sc.H, x.shares[d.Tag], x.shares, x.heldBy)
 		}
@@ -523,8 +528,25 @@ func (x *prioExec) pollCtl() {
 					x.res.RemovedWithData++
 				}
 			}
+			if c.op == "RemoveInput" && c.old != nil && x.sc.StarveEndsAtRm != nil && *x.sc.StarveEndsAtRm == c.p {
+				x.unstarved = true
+				x.res.Unstarved = true
+				x.logf("RemoveInput(%d) has returned: every remaining priority has a share now", c.p)
+			}
 			if c.op == "RemoveInput" && c.old != nil {
 				x.mon.allow(c.p, false)
+				if x.sc.Saturate {
+					// the configured set has changed: shares of the remaining priorities, judged
+					// again from the next checkpoint on (the removed priority's items are released
+					// before it, and the per-receive bound stays off until then)
+					var rest []uint
+					for p := range x.inputs {
+						rest = append(rest, p)
+					}
+					x.shares = sharesOf(x.div, rest, x.sc.H)
+					x.satPaused = true
+					x.res.SatRemovals++
+				}
 			}
 		}
 	}
@@ -931,6 +953,38 @@ func (x *prioExec) saturationCheckpoint() {
 	if !x.sc.Saturate || !x.armed() {
 		return
 	}
+	if x.satPaused {
+		// first checkpoint after a removal: the call must have returned (the shares of the
+		// remaining set are in place then) and nothing of the removed priority may be left in
+		// flight; whatever still is gets released first
+		if !x.awaitCtl() {
+			return
+		}
+		stale := func() bool {
+			for _, d := range x.held {
+				if _, ok := x.shares[d.Tag]; !ok {
+					return true
+				}
+			}
+			return false
+		}
+		for i := 0; i < 8 && stale() && !x.termSeen; i++ {
+			x.startRelease(x.pickRelease(POp{Mode: "all"}))
+			x.settle()
+		}
+		if stale() || !x.armed() {
+			return
+		}
+		// what is in flight now was partly handed out while the configuration was changing:
+		// the property speaks about a configured set, so everything is released once more and
+		// the refill - made entirely under the new shares - is what gets judged
+		x.startRelease(x.pickRelease(POp{Mode: "all"}))
+		x.settle()
+		if !x.armed() || stale() {
+			return
+		}
+		x.satPaused = false
+	}
 	x.ctl.SetPhase("await-full-occupation-under-saturation", "C05")
 	ok := x.await(prioL, func() bool { return len(x.held) >= int(x.sc.H) })
 	if !x.armed() {
@@ -1063,6 +1117,9 @@ func (x *prioExec) removeInput(op POp) {
 	}
 	old := x.inputs[op.P] // nil: the priority is not registered and the call must change nothing
 	delete(x.inputs, op.P)
+	if x.sc.Saturate && old != nil {
+		x.satPaused = true // from the call on the library may already work with the new shares
+	}
 	if old == nil {
 		x.res.AbsentRemovals++
 	}
@@ -1352,7 +1409,7 @@ func runPrioV(sc PrioScenario, ctl *bubbleCtl) *prioResult {
 		}
 	}
 	res.PriosWith2 = two
-	if sc.Starved && !x.termSeen && x.sys.cancel != nil {
+	if sc.Starved && !x.unstarved && !x.termSeen && x.sys.cancel != nil {
 		x.sys.cancel() // a starved discipline is ended by its context
 	}
 	// teardown of the harness goroutines; leftovers in old unbuffered channels are taken by us
